@@ -1,6 +1,7 @@
 import DropletsVerif.Driver.Util
 import DropletsVerif.Model.Merge
 import DropletsVerif.Model.Label
+import DropletsVerif.Model.Cyl
 namespace DV.Drv
 open DV.Merge
 
@@ -32,6 +33,16 @@ def handleC02 (args : List String) : String :=
       "ok " ++ " ".intercalate (labels.map toString) ++ " | " ++ ";".intercalate (res.map fun (r, v, p) =>
         toString r ++ ":" ++ showRat v ++ ":" ++ ",".intercalate (p.map showRat))
     | _, _ => "bad-op"
+  | "cyl" :: nr :: nz :: per :: rest =>
+    -- `c02 cyl nr nz periodic bits...`: candidates of the cylindrical branch before the overlap filter
+    match nr.toNat?, nz.toNat?, parseNats rest with
+    | some nr, some nz, some bits =>
+      if bits.length ≠ nr * nz then "bad-op" else
+      let m := (bits.map (· != 0)).toArray
+      match DV.Cyl.candidates nr nz (per == "1") (fun c => m.getD c false) with
+      | none => "ok spanning"
+      | some cs => "ok " ++ ";".intercalate (cs.map fun p => showRat p.1 ++ ":" ++ toString p.2)
+    | _, _, _ => "bad-op"
   | _ => "bad-op"
 
 end DV.Drv
